@@ -304,7 +304,8 @@ public:
                 }
             }
         protected:
-            Fn _fn;
+            //the callback is owned (stored by value): for an lvalue argument Fn is a reference type
+            std::decay_t<Fn> _fn;
         };
 
         auto *x = new Awt(std::forward<Fn>(fn), _state);
